@@ -1,6 +1,7 @@
 package redblacktree
 
 import (
+	"github.com/emirpasic/gods/v2/maps"
 	"strings"
 	"encoding/json"
 	"github.com/emirpasic/gods/v2/containers"
@@ -429,4 +430,10 @@ func VHString() {
 	s := c.String()
 	v.EndOp()
 	v.Assert(strings.HasPrefix(s, "RedBlackTree"), "C15:string-begins-with-container-name")
+}
+
+// VHHistory: D operations in a row from the constructor (see VMapHistory).
+func VHHistory() {
+	t := NewWith[int, int](vl.Cmp)
+	maps.VMapHistory(t, maps.VKind{Name: "RedBlackTree", SortedKeys: true, Inv: func() { VInv(t) }})
 }
